@@ -34,6 +34,8 @@ class Ctx:
         self.fs = simfs.SimFS(self.root, self.clock)
         self.project = Project(self.root, fscommands=self.fs, ropefolder=None)
         self.changes = {}  # id -> realized ChangeSet
+        self.sel = trace.get("sel", 0)
+        self.base = kernel.snapshot(self.root)
 
     def step(self, st):
         """A prelude step (fault-free).  Total: a step that cannot apply is skipped."""
@@ -65,9 +67,18 @@ def _prepare(trace):
     for st in trace.get("prelude", []):
         ctx.step(st)
     mode = trace["mode"]
-    victim = realize.realize(ctx.project, trace["victim"])
+    if trace["victim"].get("refactor"):
+        # the composite is what a real refactoring computes (multi-file edits, module moves)
+        from ..world import compute_refactoring
+
+        victim = compute_refactoring(ctx.project, trace["victim"]["refactor"])
+        if victim is None or not victim.changes:
+            return ctx, None, False
+        victim.description = "victim"
+    else:
+        victim = realize.realize(ctx.project, trace["victim"])
     ok = True
-    if mode in ("undo", "redo"):
+    if mode in ("undo", "redo", "undo_sel"):
         ctx.clock.advance(1_000_000_000)
         try:
             ctx.project.do(victim)
@@ -101,6 +112,8 @@ def _act(ctx, victim, mode, fault):
             ctx.project.do(victim, **kw)
         elif mode == "undo":
             h.undo(**kw)
+        elif mode == "undo_sel":
+            h.undo(change=h.undo_list[ctx.sel % len(h.undo_list)], **kw)
         else:
             h.redo(**kw)
     except Exception as e:
@@ -182,6 +195,20 @@ class AtomicEngine(Engine):
             "cuts": rng.choice([[2], [0, 2, 4], [0, 1, 3]]),
             "prelude": rng.choice([0, 1, 2, 3]),
         }
+        if rng.random() < 0.25:
+            # victim = a real refactoring on a small multi-module program
+            init = gen.gen_program(rng, swarm)
+            files = [e["p"] for e in init if not e.get("dir") and e["p"].endswith(".py")]
+            if rng.random() < 0.35:
+                rf = {"kind": "rename_module", "path": rng.choice([f for f in files if not f.endswith("__init__.py")]),
+                      "new": rng.choice(gen.NEW_IDENTS) + "9", "id": 1}
+            else:
+                rf = {"kind": "rename", "path": rng.choice(files), "ident": rng.choice(gen.PROGRAM_IDENTS[:12]),
+                      "occ": rng.randrange(3), "new": rng.choice(gen.NEW_IDENTS) + "9", "id": 1, "docs": False}
+            return {
+                "init": init, "prelude": [], "victim": {"id": 1, "desc": "victim", "ops": [], "refactor": rf},
+                "mode": rng.choice(["do", "do", "undo", "redo"]), "faults": "all", "swarm": swarm,
+            }
         init = gen.gen_tree(rng, swarm)
         tree = gen.tree_model_of(init)
         classes = gen.file_classes(init)
@@ -203,7 +230,7 @@ class AtomicEngine(Engine):
             classes = _classes_after(init, prelude[:-1])
             prelude.append({"op": "undo"})
             undone = 1
-        mode = rng.choice(["do", "do", "undo", "redo"])
+        mode = rng.choice(["do", "do", "undo", "redo"] + (["undo_sel"] * 2 if len([p for p in prelude if p["op"] == "do"]) >= 1 else []))
         allow_bad = mode == "do" and rng.random() < swarm["natural_fail_p"]
         victim, _after = gen.gen_changeset(rng, tree, classes, swarm, 1, allow_bad=allow_bad)
         victim["desc"] = "victim"
@@ -214,6 +241,7 @@ class AtomicEngine(Engine):
             "mode": mode,
             "faults": "all",
             "swarm": swarm,
+            "sel": rng.randrange(8),
         }
 
     def run(self, run_seed):
@@ -232,6 +260,9 @@ class AtomicEngine(Engine):
         swarm = trace.get("swarm") or {}
         mode = trace["mode"]
         shape = [op[0] for op in flat_ops(trace["victim"]["ops"])]
+        if trace["victim"].get("refactor"):
+            shape = ["refactor:" + trace["victim"]["refactor"]["kind"]]
+            out.stats["probe_refactoring_victim"] += 1
         out.log.add(ev="run", mode=mode, shape=shape, prelude=len(trace.get("prelude", [])))
         out.schedules.add(kernel.short_hash([mode, shape, [s["op"] for s in trace.get("prelude", [])]]))
 
@@ -248,6 +279,10 @@ class AtomicEngine(Engine):
             n_mut, n_read = ctx.fs.mut_count, ctx.fs.read_count
             writes = [i + 1 for i, r in enumerate(ctx.fs.log) if r[0] == "write"]
             fslog = list(ctx.fs.log)
+            if trace["victim"].get("refactor"):
+                shape = shape + [r[0] for r in fslog]
+                if len(fslog) >= 2:
+                    out.stats["probe_refactoring_victim_multi_op"] += 1
             n_notif = stopper.notifications
             s1 = _state(ctx)
             twin_raised = exc is not None
@@ -360,6 +395,13 @@ class AtomicEngine(Engine):
         info["exc"] = type(exc).__name__
         after = _state(ctx)
         bad = False
+        if trace["mode"] == "undo_sel":
+            # A selective undo of several change sets undoes them one by one;
+            # stopped part-way it must leave a *consistent* state: every change
+            # set either fully undone (and on the redo list) or fully in force,
+            # i.e. the tree is the replay of what the undo list now holds.
+            self._check_consistent(out, trace, fault, ctx, after, info)
+            return
         if after[0] != s0[0]:
             bad = True
             differing = sorted(k for k in set(after[0]) | set(s0[0]) if after[0].get(k) != s0[0].get(k))
@@ -410,6 +452,43 @@ class AtomicEngine(Engine):
                          "tree_diff": kernel.diff_trees(s1[0], again[0]), "hist_equal": again[1] == s1[1]},
                         where=fault,
                     )
+
+    def _check_consistent(self, out, trace, fault, ctx, after, info):
+        from ..model import ModelError, TreeModel
+
+        recs = {st["cs"]["desc"]: st["cs"]["ops"] for st in trace.get("prelude", []) if st["op"] == "do"}
+        recs["victim"] = trace["victim"]["ops"]
+        undo_descs = [c[1] for c in after[1][0]]
+        redo_descs = [c[1] for c in after[1][1]]
+        out.stats["probe_selective_undo_interrupted"] += 1
+        if len(redo_descs) != len(set(redo_descs)) or set(undo_descs) & set(redo_descs):
+            out.violate("history_inconsistent", info, {"fault": fault, "undo": undo_descs, "redo": redo_descs,
+                                                       "msg": "a change set is on both lists or twice on one"}, where=fault)
+            return
+        t = TreeModel(ctx.base)
+        try:
+            for d in undo_descs:
+                t.apply_all(recs[d])
+        except (ModelError, KeyError) as e:
+            out.violate("history_inconsistent", info, {"fault": fault, "undo": undo_descs, "redo": redo_descs,
+                                                       "msg": "the undo list cannot be replayed: %r" % (e,)}, where=fault)
+            return
+        if t.files != after[0]:
+            differing = sorted(k for k in set(after[0]) | set(t.files) if after[0].get(k) != t.files.get(k))
+            one_file = (len(differing) == 1 and isinstance(after[0].get(differing[0]), bytes)
+                        and isinstance(t.files.get(differing[0]), bytes))
+            info = dict(info)
+            if fault["kind"] in ("torn", "read") and ctx.fs.fired:
+                info["only_inflight_file_differs"] = one_file
+                if fault["kind"] == "read":
+                    info["read_after_apply"] = bool(ctx.fs.fired.get("after_apply"))
+            out.violate(
+                "tree_inconsistent_with_history", info,
+                {"fault": fault, "exc": info.get("exc"), "undo": undo_descs, "redo": redo_descs,
+                 "msg": "after the interrupted selective undo the tree is not the replay of the undo list",
+                 "tree_diff": kernel.diff_trees(t.files, after[0])},
+                where=fault,
+            )
 
     def minimise(self, trace, vclass, budget=200, where=None):
         t = dict(trace)
